@@ -139,6 +139,26 @@ def main(argv):
     for n in (100, 300, 330, 340, 400, 900):
         depth_pairs.append(("via=map@depth", "", "g = n => if n <= 0 then 0 else ([n - 1] via g)[0]\ng(%d)" % n,
                             "g = n => if n <= 0 then 0 else map([n - 1], g)[0]\ng(%d)" % n))
+    # generated (list, function) pairs
+    from gen_programs import Gen, Scope
+    rngg = c.Rng(seed + 13)
+    gg = Gen(rngg, allow_fail=False, max_depth=2)
+    gen_pairs = []
+    for _ in range(60 if tier == "quick" else 4000):
+        sc = Scope()
+        sc.vars["inputs"] = "rec"
+        l = gg.numlist(sc, 2)
+        if rngg.chance(1, 2):
+            f = gg.fn1(sc, 2)
+            gen_pairs.append(("via=map", "", "%s via %s" % (l, f), "map(%s, %s)" % (l, f)))
+            gen_pairs.append(("into=apply", "", "%s into %s" % (gg.num(sc, 1), f), "%s(%s)" % (f, gg.num(sc, 0)) if False else "(%s)" % ("%s into %s" % ("0", f))))
+        else:
+            f = gg.pred(sc, 1)
+            gen_pairs.append(("where=filter", "", "%s where %s" % (l, f), "filter(%s, %s)" % (l, f)))
+            gen_pairs.append(("every=conj", "", "every(%s, %s)" % (l, f), "all(map(%s, %s))" % (l, f)))
+            gen_pairs.append(("some=disj", "", "some(%s, %s)" % (l, f), "any(map(%s, %s))" % (l, f)))
+    gen_pairs = [g_ for g_ in gen_pairs if g_[0] != "into=apply"]
+    pairs = pairs + gen_pairs
     known = c.open_known(PID)
     progs = []
     for d, defs, a, b in pairs + depth_pairs:
